@@ -14,7 +14,18 @@ Definition simu : string := "AppModule.RandomizedParams: simulation interface, n
 Definition qry : string := "gRPC query response type: encoded for the client, never stored or hashed".
 Definition gjs : string := "gov GenesisState is encoded as JSON only (export-genesis, keys sorted by jsonpb); the binary form is never stored".
 
+Definition wire : string := "wiring-time setter: called from app.NewInitApp only (or not at all), before the first block; never from a handler".
+
 Definition audited_sites : list audit := [
+  mkAudit "x/evidence/keeper/keeper.go" "Keeper.SetRouter" KProcState "keeper.Keeper.router" 1 "378ab6d753963e50" (Harmless wire);
+  mkAudit "x/evidence/types/router.go" "router.AddRoute" KProcState "types.router.routes" 1 "e0172629e772c76d" (Harmless wire);
+  mkAudit "x/evidence/types/router.go" "router.Seal" KProcState "types.router.sealed" 1 "94a56912066252fc" (Harmless wire);
+  mkAudit "x/gov/keeper/keeper.go" "Keeper.SetProposalRouter" KProcState "keeper.Keeper.proposalRouter" 1 "9676b88d7cdb7f14" (Harmless wire);
+  mkAudit "x/multistaking/keeper/keeper.go" "Keeper.SetDistrKeeper" KProcState "keeper.Keeper.distrKeeper" 1 "906842565e6cf3c7" (Harmless wire);
+  mkAudit "x/multistaking/keeper/keeper.go" "Keeper.SetHooks" KProcState "keeper.Keeper.hooks" 1 "230f5ddc26d1b4d8" (Harmless wire);
+  mkAudit "x/slashing/keeper/keeper.go" "Keeper.SetHooks" KProcState "keeper.Keeper.hooks" 1 "300fe436c6e37b5f" (Harmless wire);
+  mkAudit "x/staking/keeper/keeper.go" "Keeper.SetHooks" KProcState "keeper.Keeper.hooks" 1 "1d8a50ca33095404" (Harmless wire);
+  mkAudit "x/upgrade/keeper/keeper.go" "Keeper.SetUpgradeHandler" KProcState "keeper.Keeper.upgradeHandlers" 1 "f9fb1bdfcc72eecc" (Harmless wire);
   mkAudit "app/app.go" "BlockedAddresses" KMapRange "GetMaccPerms()" 1 "1e01a29695c7dbe7" (Harmless "fills a membership map");
   mkAudit "app/app.go" "GetMaccPerms" KMapRange "maccPerms" 1 "65321bf763126ecf" (Harmless "copies a map into a map");
   mkAudit "app/app.go" "SekaiApp.ModuleAccountAddrs" KMapRange "maccPerms" 1 "ae662819fb7c73d2" (Harmless "fills a membership map");
@@ -28,7 +39,7 @@ Definition audited_sites : list audit := [
   mkAudit "x/custody/types/custody.pb.go" "CustodyWhiteList.Size" KMapRange "m.Addresses" 1 "7204b107f848cdba" (Harmless sz);
   mkAudit "x/custody/types/tx.pb.go" "TransactionPool.MarshalToSizedBuffer" KPbMap "m.Record" 1 "923f67b742e44b3d" (Finding "custody-map-encoding");
   mkAudit "x/custody/types/tx.pb.go" "TransactionPool.Size" KMapRange "m.Record" 1 "d094288e62630bcc" (Harmless sz);
-  mkAudit "x/distributor/keeper/abci.go" "Keeper.BeginBlocker" KTimeNow "time.Now" 1 "92bfd685b2648183" (Harmless tele);
+  mkAudit "x/distributor/keeper/abci.go" "Keeper.BeginBlocker" KTimeNow "time.Now" 1 "773f45d073890e16" (Harmless tele);
   mkAudit "x/evidence/abci.go" "BeginBlocker" KTimeNow "time.Now" 1 "18897b690c06b9a3" (Harmless tele);
   mkAudit "x/evidence/module.go" "AppModule.RandomizedParams" KRand "math/rand.Rand" 1 "af3ca6c58f9814fc" (Harmless simu);
   mkAudit "x/gov/genesis.go" "InitGenesis" KMapRange "genesisState.DataRegistry" 1 "327ac8651436b573" (Harmless "one store write per distinct key: the writes commute");
@@ -58,7 +69,9 @@ Definition audited_sites : list audit := [
 
 (* Every source of replica nondeterminism the translator finds in the tree (time.Now/Since/Until,
    math/rand + crypto/rand, range over a Go map, protobuf Marshal ranging a map<> field, maps.Keys,
-   go statements, os environment / host time zone, package runtime; all non-test, non-client code
+   go statements, os environment / host time zone, package runtime, writes to process-local state
+   (package-level variables, fields of application structs reached from a receiver or parameter) outside
+   constructors / init / Register*; all non-test, non-client code
    under x/, app/ and types/) is an audited entry: harmless for a stated reason, or a recorded
    finding.  The table is exact in both directions and pinned to the code:
    - a NEW time.Now() / map range in keeper code is not covered          (first conjunct),
